@@ -62,6 +62,14 @@ let sop_of_sx x = match Sexp.list x with
   | [Sexp.A "unsuball"; c] -> SUnsubAll (bytes_of_sx c)
   | _ -> failwith "sop"
 
+(* C09O.canonical_names (mirrored here until it is a root of extract/Extract.v): the names the
+   broker hands to the store - (share name, filter) and the full topic name determine each other *)
+let canonical_op = function
+  | OSub (_, s) -> let (g, f) = split_topic (full_topic s) in g = s.s_share && f = s.s_filter
+  | OUnsub (_, t) -> let (g, f) = split_topic t in
+    t = (if is_empty g then f else sHARE_SLASH @ g @ [sLASH] @ f)
+  | OUnsubAll _ -> true
+
 let run_rsub (input : Sexp.t) (impl : Sexp.t) : Verdict.t =
   let live = S_sub.run `C02 input (Sexp.L (List.map (fun k -> Sexp.L (Sexp.A k :: Sexp.field k (Sexp.L (Sexp.field "live" impl))))
                                                ["already"; "results"; "gstats"; "cstats"])) in
@@ -87,14 +95,16 @@ let run_rsub (input : Sexp.t) (impl : Sexp.t) : Verdict.t =
   let reload_ok =
     (not ierr) && List.length ires = List.length qs &&
     List.for_all2 (fun q r -> c02_query_ok sp q r) qs ires && icur = List.length sp in
-  let oracle = live.Verdict.oracle && ((not wf) || reload_ok) in
-  let kf = if kf_redis_hdel_slice fx ops then "kf_redis_hdel_slice" else if kf_redis_trimleft fx ops then "kf_redis_trimleft" else "-" in
+  let canonical = List.for_all canonical_op flat in
+  let oracle = live.Verdict.oracle && ((not wf) || (not canonical) || reload_ok) in
+  let kf = "-" in
   let nonempty = List.exists (fun r -> match r with IOk (_ :: _) -> true | _ -> false) ires in
   let nun = List.length (List.filter (fun o -> match o with SUnsub _ | SUnsubAll _ -> true | _ -> false) ops) in
   { Verdict.agree; oracle; kf;
     nontrivial = List.length ops >= 3 && nonempty;
-    cls = Printf.sprintf "ops%s_unsub%s_%s_%s" (if List.length ops < 10 then "lt10" else "ge10") (if nun = 0 then "0" else "some")
-        (if List.exists (fun c -> trim_left c <> c) ids then "trimid" else "plainid") (if nonempty then "hit" else "nohit");
+    cls = Printf.sprintf "ops%s_unsub%s_%s_%s%s" (if List.length ops < 10 then "lt10" else "ge10") (if nun = 0 then "0" else "some")
+        (if List.exists (fun c -> trim_left c <> c) ids then "trimid" else "plainid") (if nonempty then "hit" else "nohit")
+        (if canonical then "" else "_noncanonical");
     model = Sexp.L [Sexp.L (Sexp.A "journal" :: List.map sx_cmd mjournal);
                     Sexp.L (Sexp.A "reload" :: sx_bool merr :: sx_int mcur :: List.map S_sub.sx_ires mres)];
     why = (if oracle then "" else if not live.Verdict.oracle then "live_store" else if ierr then "reload_failed" else "reloaded_store_differs_from_spec") }
@@ -115,7 +125,7 @@ let run_runack (input : Sexp.t) (impl : Sexp.t) : Verdict.t =
   let dup = List.exists (fun x -> x = Some true) iouts in
   let restarts = List.exists (fun o -> o = RURestart) ops in
   { Verdict.agree = (mouts = iouts) && ijournal = mjournal; oracle = runack_ok ops iouts;
-    kf = (if kf_redis_unack_reload fx ops then "kf_redis_unack_reload" else "-"); nontrivial = dup || restarts;
+    kf = "-"; nontrivial = dup || restarts;
     cls = (if dup then "dup" else "nodup") ^ (if restarts then "_restart" else "_norestart");
     model = Sexp.L [Sexp.L (List.map (fun x -> match x with None -> Sexp.A "none" | Some b -> sx_bool b) mouts);
                     Sexp.L (Sexp.A "journal" :: List.map sx_cmd mjournal)];
@@ -157,9 +167,7 @@ let run_rqueue (input : Sexp.t) (impl : Sexp.t) : Verdict.t =
   let restarts = List.exists (fun o -> o = ORestart) ops in
   let kf = match rq_class max ifexp ops with
     | RQNone -> "-"
-    | RQLenAfterRestart -> "kf_redis_queue_len_after_restart"
     | RQLrangeMinus1 -> "kf_redis_queue_lrange_minus1"
-    | RQAddBeforeReplay -> "kf_redis_queue_add_before_replay"
     | RQStaleCache -> "kf_redis_queue_stale_cache"
     | RQReplaceCursor0 -> "kf_redis_queue_replace_cursor0"
     | RQOther -> "unclassified" in
@@ -297,9 +305,7 @@ let run_crash (input : Sexp.t) (impl : Sexp.t) : Verdict.t =
       | _ -> failwith "prefix") (Sexp.field "prefixes" impl);
   let agree = agree_journal && !disagree = [] in
   let oracle = !fails = [] in
-  let kinds = List.sort_uniq compare (List.map (fun (_, x) -> explain fx names x) !fails) in
-  let kf = if !fails = [] then "-" else if List.mem KFNone kinds then "-"
-    else if List.mem KFHdel kinds then "kf_redis_hdel_slice" else if List.mem KFTrim kinds then "kf_redis_trimleft" else "kf_redis_unack_reload" in
+  let kf = "-" in   (* no open known finding at this level: 41101f9, 9588927, 892f3ad repaired the three classes *)
   let failnames = List.sort_uniq compare (List.map (fun (_, x) -> fail_name x) !fails) in
   let nsub = List.length (List.filter (fun o -> match o.os_step with SSubscribe _ -> true | _ -> false) steps) in
   let ndeliv = List.length (List.filter (fun c -> match c with CRPush _ -> true | _ -> false) ijournal) in
